@@ -1,9 +1,9 @@
 #!/bin/bash
-# Offline setup: contracts libraries beside the repository's interpreter (git-ignored .deps)
+# Offline setup: nothing is installed. The monitors are hand-written recording wrappers (vf/instrument.py), audit hooks
+# and sys.monitoring callbacks from the standard library; the checks only need /venv/bin/python with the repository's
+# own dependencies. This script creates the output directories and verifies that antiSMASH imports from /repo.
 HERE="$(cd "$(dirname "${BASH_SOURCE[0]}")/.." && pwd)"
 set -e
-if [ ! -d "$HERE/.deps/icontract" ]; then
-  /venv/bin/pip install -q --no-index --find-links /opt/veriftools/wheels --target "$HERE/.deps" icontract deal
-fi
 mkdir -p "$HERE/evidence" "$HERE/replays" "$HERE/.work"
-/venv/bin/python -c "import sys; sys.path.insert(0,'$HERE/.deps'); import icontract; print('icontract', icontract.__version__)"
+REPO="${VERIF_REPO:-/repo}"
+PYTHONPATH="$REPO:$HERE" PYTHONDONTWRITEBYTECODE=1 /venv/bin/python -c "import antismash, vf.core, sys; print('antismash', antismash.__version__, 'python', sys.version.split()[0])"
